@@ -363,16 +363,21 @@ def _direct_task(task):
     st = {"calls": 0, "fixes": 0, "by_branch": Counter(), "samples": [], "memories": 0, "table": {}}
     protos = _DIRECT["protos"][code]
     rule, cfg = rule_object("ansi", code, policy)
+    rule_opts = [o for o in policy_options(code) if o != "consistent"]
     handle = rule._handle_segment
     for pi, (seg_type, (proto, ctx0)) in enumerate(sorted(protos.items())):
         toks = all_tokens(maxlen if pi == 0 else maxlen_other)
         ctx0 = dataclasses.replace(ctx0, config=cfg)
-        mems = [{}]
+        # explicit policy: the saturated memory (every case refuted by earlier segments: the transformation branch is always reached, also for
+        # texts that already conform) on every text, the empty memory (first segment of a file) on the texts of length <= 3
+        mems = [{"refuted_cases": set(rule_opts)}, {}]
         if policy == "consistent":
             mems = reachable_memories(rule, proto, ctx0)
             st["memories"] = max(st["memories"], len(mems))
         for mi, mem0 in enumerate(mems):
             for tok in toks:
+                if policy != "consistent" and mi == 1 and len(tok) > 3:
+                    break
                 seg = proto.edit(tok)
                 mem = {k: (set(v) if isinstance(v, set) else v) for k, v in mem0.items()}
                 ctx = dataclasses.replace(ctx0, segment=seg, memory=mem)
@@ -447,7 +452,8 @@ def handle_segment_direct(tier, seed):
         "bound": (f"all {len(all_tokens(5))} non-empty strings of length <= 5 over the alphabet {list(ALPHABET)} as the text of the segment, "
                   f"for each of the {len(tasks)} (rule, policy value) pairs the real config validation offers (CP01/CP04: {policy_options('CP01')}; "
                   f"CP02/CP03/CP05: {policy_options('CP02')}), on every segment type the real linter handed to that rule for the prototype query "
-                  f"{PROTO_SQL!r} ({ {c: sorted(v) for c, v in _DIRECT['protos'].items()} }); policy 'consistent' on each of the {mems} memory states "
+                  f"{PROTO_SQL!r} ({ {c: sorted(v) for c, v in _DIRECT['protos'].items()} }); explicit policies under the saturated memory (every case already "
+                  f"refuted) and, for length <= 3, under the empty memory; policy 'consistent' on each of the {mems} memory states "
                   f"reachable from the empty memory (closure over {MEMORY_SEEDS}), strings of length <= 4. "
                   + ("Quick tier: length 5 only under CP01 and CP02 (which between them offer every policy value) on their first segment type, length <= 4 "
                      "under CP03..CP05, length <= 3 on the other segment types of a rule" if tier == "quick" else "All lengths on every type")),
